@@ -12,6 +12,8 @@ PID = "C18"
 
 
 def conc_row(j):
+    if j % 11 == 10:
+        return {}            # a row without columns: it still takes a row id
     r = {b"tag": b"t%06d" % j, b"c": b"v%d" % (j % 7)}
     if j % 5 != 0:
         r[b"d"] = b"w%d" % (j % 3)
@@ -33,6 +35,8 @@ def probes(cid, writer, total, rng, off=0):
     js = list(range(total)) if total <= 120 else sorted(rng.sample(range(total), 120))
     for j in js:
         r = conc_row(j + off)
+        if not r:
+            continue
         q(dp.e_eq(b"tag", r[b"tag"]))
         q(("A", [dp.e_eq(b"tag", r[b"tag"])] + [dp.e_eq(c, v) for c, v in r.items() if c != b"tag"]), [b"c"])
     q(("O", [dp.e_eq(b"c", b"v%d" % k) for k in range(7)]), [b"c", b"d"])
